@@ -72,11 +72,16 @@ def drain(queue, set_code, refresh_code, decode):
     return outs
 
 
-async def run_set_call(tbl, idx, triple, value, retries, timeout, events, tracking, sub_index=0):
-    """Drive one parameter.set(value) call through `events`; returns (outs per point, triple after, triple right after call)."""
+async def run_set_call(tbl, idx, triple, value, retries, timeout, events, tracking, sub_index=0, via_device=False):
+    """Drive one parameter.set(value) call through `events`; returns (outs per point, triple after, triple right after call).
+    via_device: the call is Device.set(name, value, retries) of the owning device (timeout 5 s is then the library's default)."""
     from pyplumio.helpers.parameter import ParameterValues
     p, queue, sc, rc, dec = make_param(tbl, idx, triple, tracking, sub_index)
-    task = asyncio.ensure_future(p.set(value, retries=retries, timeout=timeout))
+    if via_device:
+        p.device.data[p.description.name] = p
+        task = asyncio.ensure_future(p.device.set(p.description.name, value, retries=retries))
+    else:
+        task = asyncio.ensure_future(p.set(value, retries=retries, timeout=timeout))
 
     async def settle():
         for _ in range(6):
@@ -262,3 +267,40 @@ async def run_set_call_frames(product, idx, triple, value, retries, timeout, eve
     await asyncio.gather(*dev.tasks, return_exceptions=True)
     q = dev.data[name]
     return outs, [q.values.value, q.values.min_value, q.values.max_value], None
+
+
+async def make_schedule_param(idx: int, triple, tracking: bool = True):
+    """A schedule switch / parameter (table 5) of a REAL ecoMAX that has received a schedules response listing all schedules
+    (so that schedules whose names are prefixes of one another coexist).  Returns (parameter, queue, set_code, refresh_code, decode);
+    decode gives the raw value carried for THIS parameter, or a marker when the request addresses another schedule."""
+    from pyplumio.const import FrameType
+    from pyplumio.devices.ecomax import EcoMAX
+    from pyplumio.frames import responses as R
+    from pyplumio.helpers.parameter import ParameterValues
+    from pyplumio.structures.network_info import NetworkInfo
+    from pyplumio.structures.schedules import SCHEDULE_PARAMETERS, SCHEDULES
+    from harness import model
+    queue = asyncio.Queue()
+    dev = EcoMAX(queue, network=NetworkInfo())
+    week = [[(d + k) % 3 == 0 for k in range(48)] for d in range(7)]
+    ss = [[i, i % 2, [[(7 * i + 3) % 200, 0, 255]], [[int(b) for b in day] for day in week]] for i in range(len(SCHEDULES))]
+    for lo in range(0, len(ss), 5):            # several responses (at most five schedules fit a frame)
+        payload = model.call("enc_schedules", [0, lo, ss[lo:lo + 5]])
+        dev.handle_frame(R.SchedulesResponse(message=bytearray(payload)))
+        for _ in range(6):
+            pending = [t for t in dev.tasks if not t.done()]
+            if pending:
+                await asyncio.gather(*pending, return_exceptions=True)
+            await asyncio.sleep(0)
+    desc = SCHEDULE_PARAMETERS[idx]
+    p = dev.data[desc.name]
+    p.update(ParameterValues(value=triple[0], min_value=triple[1], max_value=triple[2]))
+    if tracking:
+        dev._frame_versions[FrameType.REQUEST_SCHEDULES] = 1
+    sched, is_param = idx // 2, idx % 2
+
+    def decode(m):
+        if m[0] != 1 or m[1] != sched:
+            return ["wrong-schedule", m[1]]
+        return m[3] if is_param else m[2]
+    return p, queue, 55, 54, decode
